@@ -134,10 +134,11 @@ def _c09_wordcount_stage():
 
 PROPS["C09"] = doc_prop(
     "C09",
-    quick=[bfs("MC_C09", "C09_quick")],
-    thorough=[bfs("MC_C09", "C09_thorough")],
-    sample_quick=12000, sample_thorough=300000,
-    rule="cases = documents over all element kinds; non-trivial = the run produced output words",
+    quick=[bfs("MC_C09", "C09_quick"), bfs("MC_C09", "C09_tables")],
+    thorough=[bfs("MC_C09", "C09_thorough"), bfs("MC_C09", "C09_tables")],
+    sample_quick=16000, sample_thorough=300000,
+    rule="cases = documents over all element kinds, plus layout / data tables with text, inline elements and images in their cells; "
+         "non-trivial = the run produced output words",
     nontrivial_key="with_output")
 
 
